@@ -1807,7 +1807,8 @@ class Mps(MatrixProduct):
 
     
     def add(self, other):
-        if not np.allclose(self.coeff, other.coeff):
+        # exact comparison: prefactors that merely agree to 1e-5 must be folded into the matrices as well
+        if self.coeff != other.coeff:
             self.scale(self.coeff, inplace=True)
             other.scale(other.coeff, inplace=True)
             self.coeff = 1
@@ -1815,7 +1816,7 @@ class Mps(MatrixProduct):
         return super().add(other)
     
     def distance(self, other) -> float:
-        if not np.allclose(self.coeff, other.coeff):
+        if self.coeff != other.coeff:
             self.scale(self.coeff, inplace=True)
             other.scale(other.coeff, inplace=True)
             self.coeff = 1
